@@ -3,7 +3,7 @@
    Yellow-Paper machine of YP.v on the gas-free projection (pc, stack, memory, output, halting
    status): forward simulation, one interpreter iteration against one YP instruction, with an
    explicit state relation. *)
-From Coq Require Import ZArith List Bool Lia.
+From Coq Require Import ZArith List Bool Lia Znumtheory.
 From V.C10 Require Import Model Machine Proofs Jump Refine YP SimLemmas.
 Import ListNotations.
 Local Open Scope Z_scope.
@@ -169,3 +169,728 @@ Qed.
 
 Lemma mem_rel_bytes mem m i : mem_rel mem m i -> forall x, 0 <= m x < 256.
 Proof. intros [_ [_ [C D]]] x. rewrite D. apply C. Qed.
+
+(* ---- the interpreter iteration, taken apart ------------------------------------------------------------ *)
+
+
+Definition is_other (k : kind) : bool := match k with KOther => true | _ => false end.
+Lemma match_other {A} k (a b : A) : is_other k = false ->
+  match k with KOther => a | _ => b end = b.
+Proof. destruct k; try reflexivity. discriminate. Qed.
+Lemma is_other_true k : is_other k = true -> k = KOther.
+Proof. destruct k; try discriminate. reflexivity. Qed.
+
+Lemma mgc_bound mag L fee n p : memory_gas_cost mag L fee n = Some p -> n = 0 \/ n <= MAXMEM.
+Proof.
+  unfold memory_gas_cost, MAXMEM. destruct (Z.eqb_spec n 0); [left; assumption|].
+  destruct (Z.ltb_spec 137438953440 n); [discriminate|]. right. assumption.
+Qed.
+Lemma copier_bound mag L fee n wo p : copier_gas mag L fee n wo = Some p -> n = 0 \/ n <= MAXMEM.
+Proof.
+  unfold copier_gas. destruct (memory_gas_cost mag L fee n) as [[g l]|] eqn:Em; [|discriminate].
+  intros _. eapply mgc_bound; eassumption.
+Qed.
+Lemma sha3_bound mag L fee n wo p : sha3_gas mag L fee n wo = Some p -> n = 0 \/ n <= MAXMEM.
+Proof.
+  unfold sha3_gas. destruct (memory_gas_cost mag L fee n) as [[g l]|] eqn:Em; [|discriminate].
+  intros _. eapply mgc_bound; eassumption.
+Qed.
+
+Lemma calc_u_nonneg off l : 0 <= fst (calc_mem_size_u off l).
+Proof.
+  unfold calc_mem_size_u. destruct (l =? 0); [cbn; lia|]. destruct (negb (off <? U64)); [cbn; lia|].
+  cbn [fst]. apply Z.mod_pos_bound. reflexivity.
+Qed.
+Lemma calc_nonneg off l : 0 <= fst (calc_mem_size off l).
+Proof. unfold calc_mem_size. destruct (negb (l <? U64)); [cbn; lia|apply calc_u_nonneg]. Qed.
+
+Lemma tws_nonneg sz : 0 <= sz -> 0 <= to_word_size sz.
+Proof.
+  intros. unfold to_word_size. destruct (MAXU64 - 31 <? sz); [vm_compute; discriminate|].
+  apply Z.div_pos; lia.
+Qed.
+
+Section S.
+  Variable hash : list Z -> Z.
+  Variable E : env.
+  Variable P : params.
+  Variable c : code.
+  Variable input : list Z.
+
+  Lemma mem_size_nonneg k s sz ovf : mem_size_of k s = Some (sz, ovf) -> 0 <= sz.
+  Proof.
+    destruct k; cbn [mem_size_of]; try discriminate; intros H; injection H as H;
+      match type of H with
+      | calc_mem_size_u ?a ?b = _ => pose proof (calc_u_nonneg a b) as Q
+      | calc_mem_size ?a ?b = _ => pose proof (calc_nonneg a b) as Q
+      end; rewrite H in Q; exact Q.
+  Qed.
+
+  Lemma dyn_bound k st ms p s x : mem_size_of k s = Some x -> dyn_gas_of P k st ms = Some (Some p) -> ms = 0 \/ ms <= MAXMEM.
+  Proof.
+    destruct k; cbn [mem_size_of dyn_gas_of]; try discriminate; intros _ H; injection H as H;
+      first [eapply mgc_bound; eassumption | eapply copier_bound; eassumption | eapply sha3_bound; eassumption].
+  Qed.
+  Lemma dyn_none k st ms s x : mem_size_of k s = Some x -> dyn_gas_of P k st ms = None -> False.
+  Proof. destruct k; cbn [mem_size_of dyn_gas_of]; discriminate. Qed.
+
+  Lemma step_inv st (Q : stepres -> Prop) :
+    (r_def (znth (p_tab P) (cnth c (s_pc st)) no_row) = false -> Q (Done (OFail EInvalidOp))) ->
+    (r_def (znth (p_tab P) (cnth c (s_pc st)) no_row) = true ->
+     zlen (s_stk st) < r_min (znth (p_tab P) (cnth c (s_pc st)) no_row) -> Q (Done (OFail EUnderflow))) ->
+    (r_def (znth (p_tab P) (cnth c (s_pc st)) no_row) = true ->
+     r_max (znth (p_tab P) (cnth c (s_pc st)) no_row) < zlen (s_stk st) -> Q (Done (OFail EOverflow))) ->
+    Q (Done (OFail EOOG)) -> Q (Done (OFail EGasOverflow)) ->
+    (decode (cnth c (s_pc st)) = KOther -> Q (Done (OUnmodelled (cnth c (s_pc st))))) ->
+    (forall w fee' gas',
+       r_def (znth (p_tab P) (cnth c (s_pc st)) no_row) = true ->
+       r_min (znth (p_tab P) (cnth c (s_pc st)) no_row) <= zlen (s_stk st) <= r_max (znth (p_tab P) (cnth c (s_pc st)) no_row) ->
+       decode (cnth c (s_pc st)) <> KOther ->
+       0 <= w -> 32 * w <= MAXMEM ->
+       match mem_size_of (decode (cnth c (s_pc st))) (s_stk st) with
+       | None => w = 0
+       | Some (sz, ovf) => ovf = false /\ w = to_word_size sz
+       end ->
+       Q (exec impl_op valid_jumpdest hash E c input (decode (cnth c (s_pc st))) (cnth c (s_pc st))
+            (mkState (s_pc st) (s_stk st) (expanded (s_mem st) (32 * w)) fee' gas' (s_maxh st)))) ->
+    Q (step impl_op valid_jumpdest hash E P c input st).
+  Proof.
+    intros H1 H2 H3 H4 H5 H6 H7. unfold step. cbv zeta.
+    set (opc := cnth c (s_pc st)) in *. set (rw := znth (p_tab P) opc no_row) in *.
+    destruct (r_def rw) eqn:Ed; cbn [negb]; [|apply H1; reflexivity].
+    destruct (Z.ltb_spec (zlen (s_stk st)) (r_min rw)); [apply H2; [reflexivity|assumption]|].
+    destruct (Z.ltb_spec (r_max rw) (zlen (s_stk st))); [apply H3; [reflexivity|assumption]|].
+    destruct (Z.ltb_spec (s_gas st) (r_gas rw)); [apply H4|].
+    destruct (is_other (decode opc)) eqn:Eo; [apply is_other_true in Eo; rewrite Eo; apply H6; exact Eo|].
+    rewrite match_other by exact Eo.
+    assert (Hne : decode opc <> KOther) by (intros Q0; rewrite Q0 in Eo; discriminate).
+    destruct (mem_size_of (decode opc) (s_stk st)) as [[sz ovf]|] eqn:Em.
+    - destruct ovf; [apply H5|].
+      pose proof (mem_size_nonneg _ _ _ _ Em) as Hsz. pose proof (tws_nonneg sz Hsz) as Ht.
+      unfold safe_mul. destruct (Z.eqb_spec (to_word_size sz) 0) as [Z0|Z0]; cbn [orb].
+      + (* msize = 0 *)
+        match goal with |- context [dyn_gas_of P ?k ?s ?m] => destruct (dyn_gas_of P k s m) as [[[g fee']|]|] eqn:Edyn end.
+        * cbn [s_gas]. destruct (s_gas st - r_gas rw <? g); [apply H4|].
+          cbn -[exec]. specialize (H7 0 fee' (s_gas st - r_gas rw - g) eq_refl (conj H H0) Hne).
+          try rewrite Em in H7; cbn beta iota in H7. apply H7; [lia|unfold MAXMEM; lia|split; [reflexivity|symmetry; exact Z0]].
+        * apply H4.
+        * exfalso. eapply dyn_none; eassumption.
+      + cbn [Z.eqb orb]. destruct (Z.leb_spec U64 (to_word_size sz * 32)); [apply H5|].
+        rewrite Z.mod_small by lia.
+        match goal with |- context [dyn_gas_of P ?k ?s ?m] => destruct (dyn_gas_of P k s m) as [[[g fee']|]|] eqn:Edyn end.
+        * cbn [s_gas]. destruct (s_gas st - r_gas rw <? g); [apply H4|].
+          pose proof (dyn_bound _ _ _ _ _ _ Em Edyn) as Hb.
+          specialize (H7 (to_word_size sz) fee' (s_gas st - r_gas rw - g) eq_refl (conj H H0) Hne).
+          try rewrite Em in H7; cbn beta iota in H7.
+          assert (Q0 : Q (exec impl_op valid_jumpdest hash E c input (decode opc) opc
+                 {| s_pc := s_pc st; s_stk := s_stk st; s_mem := expanded (s_mem st) (32 * to_word_size sz);
+                    s_fee := fee'; s_gas := s_gas st - r_gas rw - g; s_maxh := s_maxh st |}))
+            by (apply H7; [lia|lia|split; reflexivity]).
+          unfold expanded in Q0. replace (32 * to_word_size sz) with (to_word_size sz * 32) in Q0 by lia.
+          cbn [s_pc s_stk s_mem s_fee s_gas s_maxh].
+          destruct (0 <? to_word_size sz * 32); exact Q0.
+        * apply H4.
+        * exfalso. eapply dyn_none; eassumption.
+    - match goal with |- context [dyn_gas_of P ?k ?s ?m] => destruct (dyn_gas_of P k s m) as [[[g fee']|]|] eqn:Edyn end.
+      + cbn [s_gas]. destruct (s_gas st - r_gas rw <? g); [apply H4|].
+        specialize (H7 0 fee' (s_gas st - r_gas rw - g) eq_refl (conj H H0) Hne).
+        try rewrite Em in H7; cbn beta iota in H7. apply H7; [lia|unfold MAXMEM; lia|reflexivity].
+      + apply H4.
+      + specialize (H7 0 (s_fee st) (s_gas st - r_gas rw) eq_refl (conj H H0) Hne).
+        try rewrite Em in H7; cbn beta iota in H7. apply H7; [lia|unfold MAXMEM; lia|reflexivity].
+  Qed.
+End S.
+
+(* ---- one iteration against one Yellow-Paper instruction ------------------------------------------------- *)
+
+
+Definition proj (o : outcome) : option yres :=
+  match o with
+  | OStop _ => Some YStop
+  | OReturn d _ => Some (YReturn d)
+  | ORevert d _ => Some (YRevert d)
+  | OFail EOOG | OFail EGasOverflow => None
+  | OFail _ => Some YExc
+  | OFuel | OUnmodelled _ => None
+  end.
+
+Lemma wpush_word v s : word v -> wpush v s = v :: s.
+Proof.
+  intros [A B]. unfold wpush. f_equal. change (W - 1) with (Z.ones 256). rewrite Z.land_ones by lia.
+  change (2 ^ 256) with W. apply Z.mod_small. lia.
+Qed.
+
+Lemma word_small x : 0 <= x < 2 ^ 64 -> word x.
+Proof. intros. unfold word. change W with (2 ^ 256). assert (2 ^ 64 < 2 ^ 256) by reflexivity. lia. Qed.
+
+Ltac zl := unfold zlen, len in *; cbn [length] in *.
+Ltac pn := repeat match goal with H : word ?x |- _ => lazymatch goal with _ : 0 <= x |- _ => fail | _ => assert (0 <= x) by (destruct H; assumption) end end.
+Ltac finR := unfold R; cbn [s_pc s_stk s_mem y_pc y_s y_m y_i upd nth skipn]; split; [|split; [|split; [|split]]].
+
+Lemma bigend_all_zero l : (forall b, In b l -> b = 0) -> bigend l = 0.
+Proof.
+  induction l as [|b l IH]; intros H; [reflexivity|].
+  unfold bigend. cbn [fold_left]. rewrite bigend_acc. rewrite IH by (intros; apply H; right; assumption).
+  rewrite (H b) by (left; reflexivity). lia.
+Qed.
+
+Lemma bigend_mread_zero m a n : (forall x, 0 <= x < n -> m (a + x) = 0) -> bigend (mread m a n) = 0.
+Proof.
+  intros H. apply bigend_all_zero. intros b Hb. unfold mread in Hb. apply in_map_iff in Hb as [k [<- Hk]].
+  apply in_seq in Hk. apply H. lia.
+Qed.
+
+Lemma cnth_nonzero_in l x : cnth l x <> 0 -> 0 <= x < zlen l.
+Proof.
+  intros H. destruct (Z.lt_ge_cases x 0); [exfalso; apply H, cnth_out; left; assumption|].
+  destruct (Z.lt_ge_cases x (zlen l)); [lia|exfalso; apply H, cnth_out; right; assumption].
+Qed.
+
+Lemma tws_ceil sz w : 0 <= sz -> w = to_word_size sz -> 32 * w <= MAXMEM -> w = ceil32 sz /\ sz <= 32 * w.
+Proof.
+  intros Hs -> Hb. unfold to_word_size in *. destruct (Z.ltb_spec (MAXU64 - 31) sz).
+  - exfalso. revert Hb. vm_compute. intros Q. apply Q. reflexivity.
+  - unfold ceil32. split; [reflexivity|].
+    pose proof (Z.div_mod (sz + 31) 32 ltac:(lia)). pose proof (Z.mod_pos_bound (sz + 31) 32 ltac:(lia)). lia.
+Qed.
+
+Lemma calc_u_facts a l sz w : 0 <= a -> 0 < l < U64 -> calc_mem_size_u a l = (sz, false) ->
+  w = to_word_size sz -> 32 * w <= MAXMEM -> a < U64 /\ a + l <= 32 * w /\ w = ceil32 (a + l).
+Proof.
+  intros Ha Hl H Hw Hb. unfold calc_mem_size_u in H.
+  destruct (Z.eqb_spec l 0); [lia|]. destruct (Z.ltb_spec a U64); cbn [negb] in H; [|discriminate].
+  injection H as H1 H2. apply Z.ltb_ge in H2.
+  assert (Hnw : a + l < U64).
+  { destruct (Z.lt_ge_cases (a + l) U64); [assumption|exfalso].
+    assert ((a + l) mod U64 = a + l - U64).
+    { symmetry. apply (Zmod_unique (a + l) U64 1); change U64 with 18446744073709551616 in *; lia. }
+    change U64 with 18446744073709551616 in *. lia. }
+  rewrite Z.mod_small in H1 by (change U64 with 18446744073709551616 in *; lia). subst sz.
+  destruct (tws_ceil (a + l) w ltac:(lia) Hw Hb). repeat split; assumption.
+Qed.
+
+Lemma calc_facts a l sz w : 0 <= a -> 0 <= l -> calc_mem_size a l = (sz, false) ->
+  w = to_word_size sz -> 32 * w <= MAXMEM ->
+  l < U64 /\ (l = 0 -> w = 0) /\ (0 < l -> a < U64 /\ a + l <= 32 * w /\ w = ceil32 (a + l)).
+Proof.
+  intros Ha Hl H Hw Hb. unfold calc_mem_size in H.
+  destruct (Z.ltb_spec l U64); cbn [negb] in H; [|discriminate].
+  split; [assumption|]. split.
+  - intros ->. unfold calc_mem_size_u in H. cbn in H. injection H as <-. subst w. reflexivity.
+  - intros Hp. eapply calc_u_facts; try eassumption. lia.
+Qed.
+
+Lemma Mx_eq yi a l w : 0 <= yi -> 0 <= l -> (l = 0 -> w = 0) -> (0 < l -> w = ceil32 (a + l)) -> Mx yi a l = Z.max yi w.
+Proof.
+  intros Hy Hl H0 H1. unfold Mx. destruct (Z.eqb_spec l 0) as [->|Hn].
+  - rewrite H0 by reflexivity. lia.
+  - rewrite <- H1 by lia. reflexivity.
+Qed.
+
+Lemma mem_rel_ext mem m m' i : mem_rel mem m i -> (forall x, m' x = m x) -> mem_rel mem m' i.
+Proof. intros [A [B [C D]]] H. repeat split; try assumption; try apply C. intros x. rewrite H. apply D. Qed.
+
+Lemma mwrite_empty m a f x : mwrite m a 0 f x = m x.
+Proof. unfold mwrite. destruct (Z.leb_spec a x); destruct (Z.ltb_spec x (a + 0)); cbn [andb]; try reflexivity; lia. Qed.
+
+Lemma mod_u64_256 v : (v mod U64) mod 256 = v mod 256.
+Proof. symmetry. apply Zmod_div_mod; [lia|reflexivity|]. exists 72057594037927936. reflexivity. Qed.
+
+Lemma set_nth_length l : forall n v, length (set_nth l n v) = length l.
+Proof. induction l as [|x l IH]; intros [|n] v; cbn; auto. Qed.
+
+Lemma nth_set_nth l : forall n v k, (n < length l)%nat ->
+  nth k (set_nth l n v) 0 = if Nat.eqb k n then v else nth k l 0.
+Proof.
+  induction l as [|x l IH]; intros n v k H; [cbn in H; lia|].
+  destruct n, k; cbn [set_nth nth Nat.eqb]; try reflexivity. apply IH. cbn in H. lia.
+Qed.
+
+Lemma swap_eq t r n : 1 <= n < zlen (t :: r) ->
+  set_nth (znth (t :: r) n 0 :: r) (Z.to_nat n) t = yswap (t :: r) n.
+Proof.
+  intros H. unfold zlen in H. cbn [length] in H.
+  apply (nth_ext _ _ 0 0).
+  - rewrite set_nth_length. unfold yswap. rewrite map_length, seq_length. reflexivity.
+  - intros k Hk. rewrite set_nth_length in Hk. cbn [length] in Hk.
+    rewrite nth_set_nth by (cbn [length]; lia).
+    unfold yswap. rewrite nth_map_seq by (cbn [length]; lia). cbv zeta.
+    destruct (Nat.eqb_spec k (Z.to_nat n)) as [->|Hne].
+    + rewrite Z2Nat.id by lia. destruct (Z.eqb_spec n 0); [lia|]. rewrite Z.eqb_refl. reflexivity.
+    + destruct (Z.eqb_spec (Z.of_nat k) 0) as [E0|E0].
+      * assert (k = 0)%nat by lia. subst k. reflexivity.
+      * destruct (Z.eqb_spec (Z.of_nat k) n); [lia|]. destruct k; [lia|]. reflexivity.
+Qed.
+
+Ltac noteq w := repeat match goal with
+  | |- context [w =? ?k] => replace (w =? k) with false by (symmetry; apply Z.eqb_neq; lia)
+  end.
+
+Lemma range_arith_env w : 96 <= w <= 159 -> arith_of w = None /\ env_of w = None.
+Proof. intros H. unfold arith_of, env_of. noteq w. split; reflexivity. Qed.
+
+Lemma da_push w : 96 <= w <= 127 -> delta_alpha w = Some (0, 1).
+Proof.
+  intros H. unfold delta_alpha. destruct (range_arith_env w ltac:(lia)) as [-> ->]. noteq w. cbn [orb].
+  destruct (Z.leb_spec 96 w); [|lia]. destruct (Z.leb_spec w 127); [|lia]. reflexivity.
+Qed.
+Lemma da_dup w : 128 <= w <= 143 -> delta_alpha w = Some (w - 127, w - 127 + 1).
+Proof.
+  intros H. unfold delta_alpha. destruct (range_arith_env w ltac:(lia)) as [-> ->]. noteq w. cbn [orb].
+  destruct (Z.leb_spec 96 w); [|lia]. destruct (Z.leb_spec w 127); [lia|]. cbn [andb].
+  destruct (Z.leb_spec 128 w); [|lia]. destruct (Z.leb_spec w 143); [|lia]. reflexivity.
+Qed.
+Lemma da_swap w : 144 <= w <= 159 -> delta_alpha w = Some (w - 143 + 1, w - 143 + 1).
+Proof.
+  intros H. unfold delta_alpha. destruct (range_arith_env w ltac:(lia)) as [-> ->]. noteq w. cbn [orb].
+  destruct (Z.leb_spec 96 w); [|lia]. destruct (Z.leb_spec w 127); [lia|]. cbn [andb].
+  destruct (Z.leb_spec 128 w); [|lia]. destruct (Z.leb_spec w 143); [lia|]. cbn [andb].
+  destruct (Z.leb_spec 144 w); [|lia]. destruct (Z.leb_spec w 159); [|lia]. reflexivity.
+Qed.
+
+Lemma sem_push hash E Ib Id w y : 96 <= w <= 127 ->
+  sem hash E Ib Id w y =
+  YNext (mkY (y_pc y + (w - 95) + 1) (bigend (mread (byte_at Ib) (y_pc y + 1) (w - 95)) :: y_s y) (y_m y) (y_i y)).
+Proof.
+  intros H. unfold sem. destruct (range_arith_env w ltac:(lia)) as [-> ->]. noteq w.
+  destruct (Z.leb_spec 96 w); [|lia]. destruct (Z.leb_spec w 127); [|lia]. reflexivity.
+Qed.
+Lemma sem_dup hash E Ib Id w y : 128 <= w <= 143 ->
+  sem hash E Ib Id w y =
+  YNext (mkY (y_pc y + 1) (nth (Z.to_nat (w - 128)) (y_s y) 0 :: y_s y) (y_m y) (y_i y)).
+Proof.
+  intros H. unfold sem. destruct (range_arith_env w ltac:(lia)) as [-> ->]. noteq w.
+  destruct (Z.leb_spec 96 w); [|lia]. destruct (Z.leb_spec w 127); [lia|]. cbn [andb].
+  destruct (Z.leb_spec 128 w); [|lia]. destruct (Z.leb_spec w 143); [|lia]. reflexivity.
+Qed.
+Lemma sem_swap hash E Ib Id w y : 144 <= w <= 159 ->
+  sem hash E Ib Id w y = YNext (mkY (y_pc y + 1) (yswap (y_s y) (w - 143)) (y_m y) (y_i y)).
+Proof.
+  intros H. unfold sem. destruct (range_arith_env w ltac:(lia)) as [-> ->]. noteq w.
+  destruct (Z.leb_spec 96 w); [|lia]. destruct (Z.leb_spec w 127); [lia|]. cbn [andb].
+  destruct (Z.leb_spec 128 w); [|lia]. destruct (Z.leb_spec w 143); [lia|]. cbn [andb].
+  destruct (Z.leb_spec 144 w); [|lia]. destruct (Z.leb_spec w 159); [|lia]. reflexivity.
+Qed.
+
+Lemma zlen_expanded_ge mem3 ym i w : mem_rel mem3 ym (Z.max i w) -> 32 * w <= zlen mem3.
+Proof. intros [A _]. lia. Qed.
+
+Lemma copy_rel mem3 ym i3 data mo dof l :
+  mem_rel mem3 ym i3 -> (forall x, 0 <= cnth data x < 256) -> zlen data < 2 ^ 62 ->
+  0 <= mo -> 0 <= dof -> 0 <= l < U64 -> l <= MAXMEM -> (0 < l -> mo < U64 /\ mo + l <= zlen mem3) ->
+  mem_rel (mem_set mem3 (mo mod U64) (l mod U64) (get_data data (if dof <? U64 then dof else MAXU64) (l mod U64)))
+          (mwrite ym mo l (fun k => byte_at data (dof + k))) i3.
+Proof.
+  intros Hm Hb Hlen Hmo Hdof Hl Hlm Hp. rewrite (Z.mod_small l) by lia.
+  destruct (Z.eqb_spec l 0) as [->|Hn].
+  - unfold mem_set. cbn [Z.eqb]. eapply mem_rel_ext; [exact Hm|]. intros x. apply mwrite_empty.
+  - destruct Hp as [Hmu Hfit]; [lia|]. rewrite (Z.mod_small mo) by lia.
+    set (d64 := if dof <? U64 then dof else MAXU64).
+    assert (Hd64 : 0 <= d64) by (unfold d64; destruct (dof <? U64); [assumption|vm_compute; discriminate]).
+    rewrite get_data_mread; [|assumption|lia|unfold MAXMEM in Hlm; change U64 with 18446744073709551616; change (2 ^ 62) with 4611686018427387904 in Hlen; lia].
+    apply write_rel; try assumption; try lia.
+    + apply zlen_mread. lia.
+    + intros k Hk. rewrite <- cnth_in by (rewrite zlen_mread; lia). rewrite cnth_mread by lia.
+      cbv beta. change (byte_at data) with (cnth data). unfold d64. destruct (Z.ltb_spec dof U64); [reflexivity|].
+      rewrite !cnth_out; [reflexivity|right|right];
+        change U64 with 18446744073709551616 in *; change MAXU64 with 18446744073709551615; change (2 ^ 62) with 4611686018427387904 in Hlen; lia.
+    + intros k Hk. change (byte_at data) with (cnth data). apply Hb.
+Qed.
+
+Section Sim.
+  Variable defined : Z -> bool.
+  Variable hash : list Z -> Z.
+  Variable E : env.
+  Variable P : params.
+  Variable c : code.
+  Variable input : list Z.
+  Hypothesis Htab : table_ok defined P = true.
+  Hypothesis Hclen : clen c < 2 ^ 62.
+  Hypothesis Hinlen : zlen input < 2 ^ 62.
+  Hypothesis Hcb : forall x, 0 <= cnth c x < 256.
+  Hypothesis Hib : forall x, 0 <= cnth input x < 256.
+  Hypothesis Hhash : forall l, word (hash l).
+  Hypothesis Henv : forall k, word (env_get E k).
+
+  Notation ystep' := (ystep defined hash E c input).
+  Notation istep := (step impl_op valid_jumpdest hash E P c input).
+
+  Definition Qsim (y : ystate) (res : stepres) : Prop :=
+    (exists w, ystep' y = YOutside w) \/
+    match res with
+    | Next st' => exists y', ystep' y = YNext y' /\ R st' y'
+    | Done o => match proj o with Some r => ystep' y = r | None => True end
+    end.
+
+  Lemma ystep_sem y dl al :
+    defined (cur_op c (y_pc y)) = true -> delta_alpha (cur_op c (y_pc y)) = Some (dl, al) ->
+    dl <= len (y_s y) -> len (y_s y) - dl + al <= 1024 ->
+    ystep' y = sem hash E c input (cur_op c (y_pc y)) y.
+  Proof.
+    intros Hd Hda H1 H2. unfold ystep. cbv zeta. rewrite Hd, Hda. cbn [negb].
+    destruct (Z.ltb_spec (len (y_s y)) dl); [lia|].
+    destruct (Z.ltb_spec 1024 (len (y_s y) - dl + al)); [lia|]. reflexivity.
+  Qed.
+
+  Lemma step_sim st y : R st y -> Qsim y (istep st).
+  Proof.
+    intros [Hpc [Hpc0 [Hs [Hw Hm]]]].
+    assert (Hop : cur_op c (y_pc y) = cnth c (s_pc st)) by (unfold cur_op; rewrite byte_at_cnth, Hpc; reflexivity).
+    pose proof (table_ok_row defined P (cnth c (s_pc st)) Htab (Hcb _)) as Hrow.
+    unfold row_ok in Hrow. cbv zeta in Hrow. apply andb_true_iff in Hrow as [Hrd Hrda].
+    apply eqb_prop in Hrd.
+    assert (Hlen : len (y_s y) = zlen (s_stk st)) by (rewrite Hs; reflexivity).
+    apply step_inv.
+    - (* invalid *) intros Hf. right. cbn [proj]. unfold ystep. cbv zeta. rewrite Hop, <- Hrd, Hf. reflexivity.
+    - (* underflow *) intros Ht Hu. rewrite Ht in Hrd. rewrite <- Hrd in Hrda. cbn [negb orb] in Hrda.
+      unfold Qsim, ystep. cbv zeta. rewrite Hop, <- Hrd. cbn [negb].
+      destruct (delta_alpha (cnth c (s_pc st))) as [[dl al]|]; [|left; eexists; reflexivity].
+      right. cbn [proj]. apply andb_true_iff in Hrda as [A B]. apply Z.eqb_eq in A, B.
+      rewrite Hlen. destruct (Z.ltb_spec (zlen (s_stk st)) dl); [reflexivity|lia].
+    - (* overflow *) intros Ht Hu. rewrite Ht in Hrd. rewrite <- Hrd in Hrda. cbn [negb orb] in Hrda.
+      unfold Qsim, ystep. cbv zeta. rewrite Hop, <- Hrd. cbn [negb].
+      destruct (delta_alpha (cnth c (s_pc st))) as [[dl al]|]; [|left; eexists; reflexivity].
+      right. cbn [proj]. apply andb_true_iff in Hrda as [A B]. apply Z.eqb_eq in A, B.
+      rewrite Hlen. destruct (Z.ltb_spec (zlen (s_stk st)) dl); [reflexivity|].
+      destruct (Z.ltb_spec 1024 (zlen (s_stk st) - dl + al)); [reflexivity|lia].
+    - right. exact I.
+    - right. exact I.
+    - intros _. right. exact I.
+    - intros w fee' gas' Ht Hh Hk Hw0 Hwb Hms.
+      rewrite Ht in Hrd. rewrite <- Hrd in Hrda. cbn [negb orb] in Hrda. symmetry in Hrd.
+      rewrite <- Hop in *.
+      set (opc := cur_op c (y_pc y)) in *.
+      pose proof (decode_spec opc) as Hd.
+      assert (Hsem : forall dl al, delta_alpha opc = Some (dl, al) ->
+                ystep' y = sem hash E c input opc y /\ dl <= zlen (s_stk st) /\ zlen (s_stk st) - dl + al <= 1024).
+      { intros dl al Hda. rewrite Hda in Hrda. apply andb_true_iff in Hrda as [A B]. apply Z.eqb_eq in A, B.
+        split; [|lia]. apply (ystep_sem y dl al); try assumption; rewrite Hlen; lia. }
+      clear Hrda.
+      pose proof (expand_rel _ _ _ w Hm Hw0 Hwb) as Hm'.
+      destruct st as [pc stk mem fee gas maxh]. destruct y as [ypc ys ym yi].
+      cbn [s_pc s_stk s_mem s_fee s_gas s_maxh y_pc y_s y_m y_i] in *. subst ypc ys.
+      assert (Hyi : 0 <= yi) by (destruct Hm as [A _]; pose proof (zlen_nonneg mem); lia).
+      clearbody opc.
+      assert (Hnomem : w = 0 -> mem_rel mem ym yi).
+      { intros ->. replace (Z.max yi 0) with yi in Hm' by lia. exact Hm'. }
+      destruct (decode opc) eqn:Ek; cbn [mem_size_of] in Hms.
+      + (* KStop *)
+        destruct (Hsem 0 0) as [Hy _]; [rewrite Hd; reflexivity|].
+        right. cbn [exec proj]. rewrite Hy, Hd. reflexivity.
+      + (* KArith2 *)
+        destruct (Hsem 2 1) as [Hy [Hlo Hhi]]; [unfold delta_alpha; rewrite Hd; reflexivity|].
+        destruct stk as [|a [|b r]]; try (zl; lia). inv_words. try subst w.
+        right. cbn [exec s_stk s_pc s_mem]. rewrite op_correct by (assumption || apply word_0).
+        rewrite wpush_word by (apply spec_op_word; assumption || apply word_0).
+        eexists. split; [rewrite Hy; unfold sem; rewrite Hd; reflexivity|].
+        unfold R. cbn [s_pc s_stk s_mem y_pc y_s y_m y_i upd nth skipn].
+        repeat split; try lia; [constructor; [apply spec_op_word; assumption || apply word_0|assumption]|apply Hnomem; reflexivity..].
+      + (* KArith3 *)
+        destruct (Hsem 3 1) as [Hy [Hlo Hhi]]; [unfold delta_alpha; rewrite Hd; reflexivity|].
+        destruct stk as [|a [|b [|d r]]]; try (zl; lia). inv_words. try subst w.
+        right. cbn [exec s_stk s_pc s_mem]. rewrite op_correct by assumption.
+        rewrite wpush_word by (apply spec_op_word; assumption).
+        eexists. split; [rewrite Hy; unfold sem; rewrite Hd; reflexivity|]. finR; try reflexivity; try lia.
+        * constructor; [apply spec_op_word; assumption|assumption].
+        * apply Hnomem; reflexivity.
+      + (* KArith1 *)
+        destruct (Hsem 1 1) as [Hy [Hlo Hhi]]; [unfold delta_alpha; rewrite Hd; reflexivity|].
+        destruct stk as [|a r]; try (zl; lia). inv_words. try subst w.
+        right. cbn [exec s_stk s_pc s_mem]. rewrite op_correct by (assumption || apply word_0).
+        rewrite wpush_word by (apply spec_op_word; assumption || apply word_0).
+        eexists. split; [rewrite Hy; unfold sem; rewrite Hd; reflexivity|]. finR; try reflexivity; try lia.
+        * constructor; [apply spec_op_word; assumption || apply word_0|assumption].
+        * apply Hnomem; reflexivity.
+      + (* KCallDataLoad *)
+        rewrite Hd in *. destruct (Hsem 1 1) as [Hy [Hlo Hhi]]; [reflexivity|].
+        destruct stk as [|a r]; try (zl; lia). inv_words. try subst w.
+        assert (Ev : (if a <? U64 then be_word (get_data input a 32) else 0) = bigend (mread (byte_at input) a 32)).
+        { destruct (Z.ltb_spec a U64).
+          - rewrite get_data_mread.
+            + rewrite be_word_bigend. change (byte_at input) with (cnth input). reflexivity.
+            + destruct H1; lia.
+            + lia.
+            + change U64 with 18446744073709551616. change (2 ^ 62) with 4611686018427387904 in Hinlen. lia.
+          - symmetry. apply bigend_mread_zero. intros x Hx. rewrite byte_at_cnth. apply cnth_out. right.
+            change U64 with 18446744073709551616 in *; change (2 ^ 62) with 4611686018427387904 in *; lia. }
+        assert (Wv : word (bigend (mread (byte_at input) a 32))) by (apply bigend_mread_word; intros; rewrite byte_at_cnth; apply Hib).
+        right. cbn [exec s_stk s_pc s_mem]. rewrite Ev. rewrite wpush_word by exact Wv.
+        eexists. split; [rewrite Hy; reflexivity|]. finR; try reflexivity; try lia.
+        * constructor; assumption.
+        * apply Hnomem; reflexivity.
+      + (* KCallDataSize *)
+        rewrite Hd in *. destruct (Hsem 0 1) as [Hy [Hlo Hhi]]; [reflexivity|]. try subst w.
+        assert (Wv : word (zlen input)) by (apply word_small; pose proof (zlen_nonneg input); change (2 ^ 62) with 4611686018427387904 in *; change (2 ^ 64) with 18446744073709551616; lia).
+        right. cbn [exec s_stk s_pc s_mem]. rewrite wpush_word by exact Wv.
+        eexists. split; [rewrite Hy; reflexivity|]. finR; try reflexivity; try lia.
+        * constructor; assumption.
+        * apply Hnomem; reflexivity.
+      + (* KCallDataCopy *)
+        rewrite Hd in *. destruct (Hsem 3 0) as [Hy [Hlo Hhi]]; [reflexivity|].
+        destruct stk as [|mo [|dof [|l r]]]; try (zl; lia). inv_words. pn.
+        change (znth (mo :: dof :: l :: r) 0 0) with mo in Hms. change (znth (mo :: dof :: l :: r) 2 0) with l in Hms.
+        destruct (calc_mem_size mo l) as [sz ovf] eqn:Ec. destruct Hms as [-> Hwv].
+        destruct (calc_facts mo l sz w ltac:(lia) ltac:(lia) Ec Hwv Hwb) as [Hl [Hl0 Hlp]].
+        pose proof (zlen_expanded_ge _ _ _ _ Hm') as Hge.
+        right. cbn [exec s_stk s_pc s_mem].
+        eexists. split; [rewrite Hy; reflexivity|]. finR; try reflexivity; try lia; try assumption.
+        rewrite (Mx_eq yi mo l w) by (try assumption; try lia; intros Q0; apply Hlp; exact Q0).
+        apply copy_rel; try assumption; try lia.
+      + (* KCodeSize *)
+        rewrite Hd in *. destruct (Hsem 0 1) as [Hy [Hlo Hhi]]; [reflexivity|]. try subst w.
+        assert (Wv : word (zlen c)) by (apply word_small; pose proof (zlen_nonneg c); unfold clen in Hclen; unfold zlen in *; change (2 ^ 62) with 4611686018427387904 in *; change (2 ^ 64) with 18446744073709551616; lia).
+        right. cbn [exec s_stk s_pc s_mem]. rewrite wpush_word by exact Wv.
+        eexists. split; [rewrite Hy; reflexivity|]. finR; try reflexivity; try lia.
+        * constructor; assumption.
+        * apply Hnomem; reflexivity.
+      + (* KCodeCopy *)
+        rewrite Hd in *. destruct (Hsem 3 0) as [Hy [Hlo Hhi]]; [reflexivity|].
+        destruct stk as [|mo [|dof [|l r]]]; try (zl; lia). inv_words. pn.
+        change (znth (mo :: dof :: l :: r) 0 0) with mo in Hms. change (znth (mo :: dof :: l :: r) 2 0) with l in Hms.
+        destruct (calc_mem_size mo l) as [sz ovf] eqn:Ec. destruct Hms as [-> Hwv].
+        destruct (calc_facts mo l sz w ltac:(lia) ltac:(lia) Ec Hwv Hwb) as [Hl [Hl0 Hlp]].
+        pose proof (zlen_expanded_ge _ _ _ _ Hm') as Hge.
+        right. cbn [exec s_stk s_pc s_mem].
+        eexists. split; [rewrite Hy; reflexivity|]. finR; try reflexivity; try lia; try assumption.
+        rewrite (Mx_eq yi mo l w) by (try assumption; try lia; intros Q0; apply Hlp; exact Q0).
+        apply copy_rel; try assumption; try lia.
+      + (* KPop *)
+        rewrite Hd in *. destruct (Hsem 1 0) as [Hy [Hlo Hhi]]; [reflexivity|].
+        destruct stk as [|a r]; try (zl; lia). inv_words. try subst w.
+        right. cbn [exec s_stk s_pc s_mem].
+        eexists. split; [rewrite Hy; reflexivity|]. finR; try reflexivity; try lia; try assumption.
+      + (* KMload *)
+        rewrite Hd in *. destruct (Hsem 1 1) as [Hy [Hlo Hhi]]; [reflexivity|].
+        destruct stk as [|a r]; try (zl; lia). inv_words. pn.
+        change (znth (a :: r) 0 0) with a in Hms.
+        destruct (calc_mem_size_u a 32) as [sz ovf] eqn:Ec. destruct Hms as [-> Hwv].
+        destruct (calc_u_facts a 32 sz w ltac:(lia) ltac:(split; [lia|reflexivity]) Ec Hwv Hwb) as [Ha [Hfit Hwc]].
+        pose proof (zlen_expanded_ge _ _ _ _ Hm') as Hge.
+        assert (Wv : word (bigend (mread ym a 32))) by (apply bigend_mread_word; apply (mem_rel_bytes _ _ _ Hm)).
+        right. cbn [exec s_stk s_pc s_mem]. rewrite (Z.mod_small a) by lia.
+        rewrite (read_rel _ _ _ a 32 Hm') by lia. rewrite be_word_bigend. rewrite wpush_word by exact Wv.
+        eexists. split; [rewrite Hy; reflexivity|]. finR; try reflexivity; try lia.
+        * constructor; assumption.
+        * rewrite <- Hwc. exact Hm'.
+      + (* KMstore *)
+        rewrite Hd in *. destruct (Hsem 2 0) as [Hy [Hlo Hhi]]; [reflexivity|].
+        destruct stk as [|a [|v r]]; try (zl; lia). inv_words. pn.
+        change (znth (a :: v :: r) 0 0) with a in Hms.
+        destruct (calc_mem_size_u a 32) as [sz ovf] eqn:Ec. destruct Hms as [-> Hwv].
+        destruct (calc_u_facts a 32 sz w ltac:(lia) ltac:(split; [lia|reflexivity]) Ec Hwv Hwb) as [Ha [Hfit Hwc]].
+        pose proof (zlen_expanded_ge _ _ _ _ Hm') as Hge.
+        right. cbn [exec s_stk s_pc s_mem]. rewrite (Z.mod_small a) by lia.
+        eexists. split; [rewrite Hy; reflexivity|]. finR; try reflexivity; try lia; try assumption.
+        rewrite <- Hwc. apply write_rel; try assumption; try lia; try reflexivity.
+        * intros k Hkk. apply nth_word_bytes. exact Hkk.
+        * intros k Hkk. apply word_byte_range.
+      + (* KMstore8 *)
+        rewrite Hd in *. destruct (Hsem 2 0) as [Hy [Hlo Hhi]]; [reflexivity|].
+        destruct stk as [|a [|v r]]; try (zl; lia). inv_words. pn.
+        change (znth (a :: v :: r) 0 0) with a in Hms.
+        destruct (calc_mem_size_u a 1) as [sz ovf] eqn:Ec. destruct Hms as [-> Hwv].
+        destruct (calc_u_facts a 1 sz w ltac:(lia) ltac:(split; [lia|reflexivity]) Ec Hwv Hwb) as [Ha [Hfit Hwc]].
+        pose proof (zlen_expanded_ge _ _ _ _ Hm') as Hge.
+        right. cbn [exec s_stk s_pc s_mem]. rewrite (Z.mod_small a) by lia.
+        eexists. split; [rewrite Hy; reflexivity|]. finR; try reflexivity; try lia; try assumption.
+        rewrite <- Hwc. apply write_rel; try assumption; try lia; try reflexivity.
+        * intros k Hkk. assert (k = 0) by lia. subst k. cbn [Z.to_nat nth]. apply mod_u64_256.
+        * intros k Hkk. apply Z.mod_pos_bound. lia.
+      + (* KJump *)
+        rewrite Hd in *. destruct (Hsem 1 0) as [Hy [Hlo Hhi]]; [reflexivity|].
+        destruct stk as [|a r]; try (zl; lia). inv_words. pn. try subst w.
+        assert (Hcl : clen c <= U64) by (change U64 with 18446744073709551616 in *; change (2 ^ 62) with 4611686018427387904 in *; lia).
+        right. cbn [exec s_stk s_pc s_mem]. rewrite (valid_jumpdest_in_D c a) by assumption.
+        destruct (in_D c a) eqn:Ed.
+        * pose proof Ed as Ed'. apply in_D_spec in Ed' as [Q0 _]. rewrite (Z.mod_small a) by (change U64 with 18446744073709551616 in *; change (2 ^ 62) with 4611686018427387904 in *; lia).
+          eexists. split; [rewrite Hy; unfold sem; cbn [arith_of env_of Z.eqb Pos.eqb nth skipn y_s y_pc y_m y_i]; rewrite Ed; reflexivity|].
+          finR; try reflexivity; try lia; try assumption.
+        * cbn [proj]. rewrite Hy. unfold sem. cbn [arith_of env_of Z.eqb Pos.eqb nth skipn y_s y_pc y_m y_i]. rewrite Ed. reflexivity.
+      + (* KJumpi *)
+        rewrite Hd in *. destruct (Hsem 2 0) as [Hy [Hlo Hhi]]; [reflexivity|].
+        destruct stk as [|a [|b r]]; try (zl; lia). inv_words. pn. try subst w.
+        assert (Hcl : clen c <= U64) by (change U64 with 18446744073709551616 in *; change (2 ^ 62) with 4611686018427387904 in *; lia).
+        right. cbn [exec s_stk s_pc s_mem]. rewrite (valid_jumpdest_in_D c a) by assumption.
+        destruct (b =? 0) eqn:Eb.
+        { eexists. split; [rewrite Hy; unfold sem; cbn [arith_of env_of Z.eqb Pos.eqb nth skipn y_s y_pc y_m y_i]; rewrite Eb; reflexivity|].
+          finR; try reflexivity; try lia; try assumption. }
+        destruct (in_D c a) eqn:Ed.
+        * pose proof Ed as Ed'. apply in_D_spec in Ed' as [Q0 _]. rewrite (Z.mod_small a) by (change U64 with 18446744073709551616 in *; change (2 ^ 62) with 4611686018427387904 in *; lia).
+          eexists. split; [rewrite Hy; unfold sem; cbn [arith_of env_of Z.eqb Pos.eqb nth skipn y_s y_pc y_m y_i]; rewrite Eb, Ed; reflexivity|].
+          finR; try reflexivity; try lia; try assumption.
+        * cbn [proj]. rewrite Hy. unfold sem. cbn [arith_of env_of Z.eqb Pos.eqb nth skipn y_s y_pc y_m y_i]. rewrite Eb, Ed. reflexivity.
+      + (* KPc *)
+        rewrite Hd in *. destruct (Hsem 0 1) as [Hy [Hlo Hhi]]; [reflexivity|]. try subst w.
+        assert (Hin : 0 <= pc < zlen c) by (apply cnth_nonzero_in; rewrite <- Hop; discriminate).
+        assert (Wv : word pc) by (apply word_small; unfold clen, zlen in *; change (2 ^ 62) with 4611686018427387904 in *; change (2 ^ 64) with 18446744073709551616; lia).
+        right. cbn [exec s_stk s_pc s_mem]. rewrite wpush_word by exact Wv.
+        eexists. split; [rewrite Hy; reflexivity|]. finR; try reflexivity; try lia; try assumption.
+        constructor; assumption.
+      + (* KMsize *)
+        rewrite Hd in *. destruct (Hsem 0 1) as [Hy [Hlo Hhi]]; [reflexivity|]. try subst w.
+        assert (Hz : zlen (expanded mem (32 * 0)) = 32 * yi) by (destruct Hm as [A _]; exact A).
+        assert (Wv : word (32 * yi)).
+        { destruct Hm as [A [B _]]. apply word_small. unfold MAXMEM in B. change (2 ^ 64) with 18446744073709551616. lia. }
+        right. cbn [exec s_stk s_pc s_mem]. rewrite Hz. rewrite wpush_word by exact Wv.
+        eexists. split; [rewrite Hy; reflexivity|]. finR; try reflexivity; try lia; try assumption.
+        constructor; assumption.
+      + (* KGas *)
+        rewrite Hd in *. destruct (Hsem 0 1) as [Hy _]; [reflexivity|].
+        left. exists 90. rewrite Hy. reflexivity.
+      + (* KJumpdest *)
+        rewrite Hd in *. destruct (Hsem 0 0) as [Hy [Hlo Hhi]]; [reflexivity|]. try subst w.
+        right. cbn [exec s_stk s_pc s_mem].
+        eexists. split; [rewrite Hy; reflexivity|]. finR; try reflexivity; try lia; try assumption.
+      + (* KMcopy *)
+        rewrite Hd in *. destruct (Hsem 3 0) as [Hy [Hlo Hhi]]; [reflexivity|].
+        destruct stk as [|dst [|src [|l r]]]; try (zl; lia). inv_words. pn.
+        change (znth (dst :: src :: l :: r) 0 0) with dst in Hms. change (znth (dst :: src :: l :: r) 1 0) with src in Hms.
+        change (znth (dst :: src :: l :: r) 2 0) with l in Hms.
+        assert (Emax : (if dst <? src then src else dst) = Z.max dst src) by (destruct (Z.ltb_spec dst src); lia).
+        rewrite Emax in Hms.
+        destruct (calc_mem_size (Z.max dst src) l) as [sz ovf] eqn:Ec. destruct Hms as [-> Hwv].
+        destruct (calc_facts (Z.max dst src) l sz w ltac:(lia) ltac:(lia) Ec Hwv Hwb) as [Hl [Hl0 Hlp]].
+        pose proof (zlen_expanded_ge _ _ _ _ Hm') as Hge.
+        right. cbn [exec s_stk s_pc s_mem]. rewrite (Z.mod_small l) by lia.
+        eexists. split; [rewrite Hy; reflexivity|]. finR; try reflexivity; try lia; try assumption.
+        rewrite (Mx_eq yi (Z.max dst src) l w) by (try assumption; try lia; intros Q0; apply Hlp; exact Q0).
+        destruct (Z.eqb_spec l 0) as [->|Hn].
+        * eapply mem_rel_ext; [exact Hm'|]. intros x. apply mwrite_empty.
+        * destruct Hlp as [Q1 [Q2 _]]; [lia|].
+          rewrite (Z.mod_small dst), (Z.mod_small src) by lia.
+          rewrite (read_rel _ _ _ src l Hm') by lia.
+          apply write_rel; try assumption; try lia.
+          -- apply zlen_mread. lia.
+          -- intros k Hkk. rewrite <- cnth_in by (rewrite zlen_mread; lia). rewrite cnth_mread by lia. reflexivity.
+          -- intros k Hkk. apply (mem_rel_bytes _ _ _ Hm).
+      + (* KPush0 *)
+        rewrite Hd in *. destruct (Hsem 0 1) as [Hy [Hlo Hhi]]; [reflexivity|]. try subst w.
+        right. cbn [exec s_stk s_pc s_mem]. rewrite wpush_word by apply word_0.
+        eexists. split; [rewrite Hy; reflexivity|]. finR; try reflexivity; try lia; try assumption.
+        constructor; [apply word_0|assumption].
+      + (* KPush *)
+        destruct Hd as [Hr ->]. destruct (Hsem 0 1) as [Hy [Hlo Hhi]]; [apply da_push; exact Hr|]. try subst w.
+        assert (Wv : word (bigend (mread (byte_at c) (pc + 1) (opc - 95)))).
+        { apply bigend_mread_bound; [intros; change (byte_at c) with (cnth c); apply Hcb|lia]. }
+        right. cbn [exec s_stk s_pc s_mem]. cbv zeta.
+        rewrite (padded_window c (pc + 1) (opc - 95)) by lia. rewrite be_word_bigend.
+        change (cnth c) with (byte_at c). rewrite wpush_word by exact Wv.
+        eexists. split; [rewrite Hy; apply sem_push; exact Hr|]. finR; cbn [y_pc y_s y_m y_i]; try reflexivity; try lia; try assumption.
+        constructor; assumption.
+      + (* KDup *)
+        destruct Hd as [Hr ->]. destruct (Hsem (opc - 127) (opc - 127 + 1)) as [Hy [Hlo Hhi]]; [apply da_dup; exact Hr|]. try subst w.
+        assert (Wv : word (znth stk (opc - 127 - 1) 0)) by (apply znth_word; assumption).
+        right. cbn [exec s_stk s_pc s_mem]. rewrite wpush_word by exact Wv.
+        eexists. split; [rewrite Hy; apply sem_dup; exact Hr|]. finR; cbn [y_pc y_s y_m y_i]; try lia; try assumption.
+        * unfold znth. replace (opc - 127 - 1) with (opc - 128) by lia. reflexivity.
+        * constructor; [|assumption]. replace (opc - 128) with (opc - 127 - 1) by lia. exact Wv.
+      + (* KSwap *)
+        destruct Hd as [Hr ->]. destruct (Hsem (opc - 143 + 1) (opc - 143 + 1)) as [Hy [Hlo Hhi]]; [apply da_swap; exact Hr|]. try subst w.
+        destruct stk as [|t r]; try (zl; lia).
+        right. cbn [exec s_stk s_pc s_mem].
+        eexists. split; [rewrite Hy; apply sem_swap; exact Hr|]. finR; cbn [y_pc y_s y_m y_i]; try lia; try assumption.
+        * apply swap_eq. lia.
+        * rewrite <- swap_eq by lia. inversion Hw; subst. apply set_nth_words; [constructor; [apply znth_word; assumption|assumption]|assumption].
+      + (* KReturn *)
+        rewrite Hd in *. destruct (Hsem 2 0) as [Hy [Hlo Hhi]]; [reflexivity|].
+        destruct stk as [|off [|size r]]; try (zl; lia). inv_words. pn.
+        change (znth (off :: size :: r) 0 0) with off in Hms. change (znth (off :: size :: r) 1 0) with size in Hms.
+        destruct (calc_mem_size off size) as [sz ovf] eqn:Ec. destruct Hms as [-> Hwv].
+        destruct (calc_facts off size sz w ltac:(lia) ltac:(lia) Ec Hwv Hwb) as [Hl [Hl0 Hlp]].
+        pose proof (zlen_expanded_ge _ _ _ _ Hm') as Hge.
+        right. cbn [exec s_stk s_pc s_mem proj]. rewrite (Z.mod_small size) by lia. rewrite Hy.
+        destruct (Z.eqb_spec size 0) as [->|Hn]; [reflexivity|].
+        destruct Hlp as [Q1 [Q2 _]]; [lia|]. rewrite (Z.mod_small off) by lia.
+        rewrite (read_rel _ _ _ off size Hm') by lia. reflexivity.
+      + (* KRevert *)
+        rewrite Hd in *. destruct (Hsem 2 0) as [Hy [Hlo Hhi]]; [reflexivity|].
+        destruct stk as [|off [|size r]]; try (zl; lia). inv_words. pn.
+        change (znth (off :: size :: r) 0 0) with off in Hms. change (znth (off :: size :: r) 1 0) with size in Hms.
+        destruct (calc_mem_size off size) as [sz ovf] eqn:Ec. destruct Hms as [-> Hwv].
+        destruct (calc_facts off size sz w ltac:(lia) ltac:(lia) Ec Hwv Hwb) as [Hl [Hl0 Hlp]].
+        pose proof (zlen_expanded_ge _ _ _ _ Hm') as Hge.
+        right. cbn [exec s_stk s_pc s_mem proj]. rewrite (Z.mod_small size) by lia. rewrite Hy.
+        destruct (Z.eqb_spec size 0) as [->|Hn]; [reflexivity|].
+        destruct Hlp as [Q1 [Q2 _]]; [lia|]. rewrite (Z.mod_small off) by lia.
+        rewrite (read_rel _ _ _ off size Hm') by lia. reflexivity.
+      + (* KSha3 *)
+        rewrite Hd in *. destruct (Hsem 2 1) as [Hy [Hlo Hhi]]; [reflexivity|].
+        destruct stk as [|off [|size r]]; try (zl; lia). inv_words. pn.
+        change (znth (off :: size :: r) 0 0) with off in Hms. change (znth (off :: size :: r) 1 0) with size in Hms.
+        destruct (calc_mem_size off size) as [sz ovf] eqn:Ec. destruct Hms as [-> Hwv].
+        destruct (calc_facts off size sz w ltac:(lia) ltac:(lia) Ec Hwv Hwb) as [Hl [Hl0 Hlp]].
+        pose proof (zlen_expanded_ge _ _ _ _ Hm') as Hge.
+        assert (Edata : (if size mod U64 =? 0 then [] else slice (expanded mem (32 * w)) (off mod U64) (size mod U64)) = mread ym off size).
+        { rewrite (Z.mod_small size) by lia. destruct (Z.eqb_spec size 0) as [->|Hn]; [reflexivity|].
+          destruct Hlp as [Q1 [Q2 _]]; [lia|]. rewrite (Z.mod_small off) by lia. apply (read_rel _ _ _ off size Hm'); lia. }
+        right. cbn [exec s_stk s_pc s_mem]. cbv zeta. rewrite Edata. rewrite wpush_word by apply Hhash.
+        eexists. split; [rewrite Hy; reflexivity|]. finR; try reflexivity; try lia; try assumption.
+        * constructor; [apply Hhash|assumption].
+        * rewrite (Mx_eq yi off size w) by (try assumption; try lia; intros Q0; apply Hlp; exact Q0). exact Hm'.
+      + (* KEnv *)
+        destruct Hd as [Ha He]. destruct (Hsem 0 1) as [Hy [Hlo Hhi]]; [unfold delta_alpha; rewrite Ha, He; reflexivity|]. try subst w.
+        right. cbn [exec s_stk s_pc s_mem]. rewrite wpush_word by apply Henv.
+        eexists. split; [rewrite Hy; unfold sem; rewrite Ha, He; reflexivity|]. finR; try reflexivity; try lia; try assumption.
+        constructor; [apply Henv|assumption].
+      + (* KRetDataSize *)
+        rewrite Hd in *. destruct (Hsem 0 1) as [Hy [Hlo Hhi]]; [reflexivity|]. try subst w.
+        right. cbn [exec s_stk s_pc s_mem]. rewrite wpush_word by apply word_0.
+        eexists. split; [rewrite Hy; reflexivity|]. finR; try reflexivity; try lia; try assumption.
+        constructor; [apply word_0|assumption].
+      + (* KRetDataCopy *)
+        rewrite Hd in *. destruct (Hsem 3 0) as [Hy [Hlo Hhi]]; [reflexivity|].
+        destruct stk as [|mo [|dof [|l r]]]; try (zl; lia). inv_words. pn.
+        change (znth (mo :: dof :: l :: r) 0 0) with mo in Hms. change (znth (mo :: dof :: l :: r) 2 0) with l in Hms.
+        destruct (calc_mem_size mo l) as [sz ovf] eqn:Ec. destruct Hms as [-> Hwv].
+        destruct (calc_facts mo l sz w ltac:(lia) ltac:(lia) Ec Hwv Hwb) as [Hl [Hl0 Hlp]].
+        right. cbn [exec s_stk s_pc s_mem].
+        assert (Hsm : sem hash E c input 62 {| y_pc := pc; y_s := mo :: dof :: l :: r; y_m := ym; y_i := yi |} =
+                      if 0 <? dof + l then YExc else YNext (mkY (pc + 1) r ym (Mx yi mo l))) by reflexivity.
+        destruct (Z.ltb_spec dof U64) as [Hdu|Hdu]; cbn [negb].
+        2:{ cbn [proj]. rewrite Hy, Hsm. destruct (Z.ltb_spec 0 (dof + l)); [reflexivity|change U64 with 18446744073709551616 in *; lia]. }
+        assert (Esum : (dof + l) mod W = dof + l).
+        { apply Z.mod_small. change U64 with 18446744073709551616 in *. change W with 115792089237316195423570985008687907853269984665640564039457584007913129639936. lia. }
+        rewrite Esum.
+        destruct (Z.ltb_spec (dof + l) U64) as [He|He]; cbn [negb orb].
+        2:{ cbn [proj]. rewrite Hy, Hsm. destruct (Z.ltb_spec 0 (dof + l)); [reflexivity|change U64 with 18446744073709551616 in *; lia]. }
+        destruct (Z.ltb_spec 0 (dof + l)) as [Hp|Hp].
+        { cbn [proj]. rewrite Hy, Hsm. destruct (Z.ltb_spec 0 (dof + l)); [reflexivity|lia]. }
+        assert (l = 0) by lia. subst l. rewrite Hl0 in * by reflexivity.
+        eexists. split; [rewrite Hy, Hsm; destruct (Z.ltb_spec 0 (dof + 0)); [lia|reflexivity]|].
+        finR; cbn [y_pc y_s y_m y_i]; try reflexivity; try lia; try assumption.
+      + (* KOther *)
+        exfalso. apply Hk. reflexivity.
+  Qed.
+
+  Notation yrun' := (yrun defined hash E c input).
+  Notation irun := (run impl_op valid_jumpdest hash E P c input).
+
+  (* whole runs: by induction on the number of iterations *)
+  Lemma run_sim fuel : forall st y, R st y ->
+    (exists w, yrun' fuel y = YOutside w) \/
+    match proj (fst (irun fuel st)) with Some r => yrun' fuel y = r | None => True end.
+  Proof.
+    induction fuel as [|k IH]; intros st y HR; [right; exact I|].
+    cbn [run yrun]. destruct (step_sim st y HR) as [[w Hw]|H].
+    - left. exists w. rewrite Hw. reflexivity.
+    - destruct (istep st) as [st'|o].
+      + destruct H as [y' [Hy HR']]. rewrite Hy. apply IH. exact HR'.
+      + right. cbn [fst]. destruct o as [g|d g|d g|e| |u]; cbn [proj] in *; try exact I;
+          try (rewrite H; reflexivity).
+        destruct e; cbn [proj] in *; try exact I; rewrite H; reflexivity.
+  Qed.
+
+  Lemma R_init gas : R (init gas) y0.
+  Proof.
+    assert (Z0 : forall x, cnth [] x = 0) by (intros x; unfold cnth; destruct ((0 <=? x) && (x <? clen [])); [destruct (Z.to_nat x)|]; reflexivity).
+    unfold R, init, y0, mem_rel. cbn [s_pc s_stk s_mem y_pc y_s y_m y_i].
+    split; [reflexivity|]. split; [lia|]. split; [reflexivity|]. split; [constructor|].
+    split; [reflexivity|]. split; [unfold MAXMEM, zlen; cbn; lia|].
+    split; intros x; rewrite Z0; [lia|reflexivity].
+  Qed.
+
+  Theorem impl_refines_yp fuel gas :
+    (exists w, yrun' fuel y0 = YOutside w) \/
+    match proj (fst (irun fuel (init gas))) with Some r => yrun' fuel y0 = r | None => True end.
+  Proof. apply run_sim. apply R_init. Qed.
+End Sim.
